@@ -23,6 +23,7 @@ def run(ctx):
         ctx.fail_closed(['C04', 'C20'], 'R-ANCHOR', 'CGF', 'expected one function from &[grammar::Function] to Vec<Function>, found %s' % [f.id for f in cgf])
     else:
         slots(ctx, cgf[0])
+        slot_source(ctx, cgf[0])
     vb = [f for f in P.fns.values() if f.kind != 'Closure' and re.match(r'^std::result::Result<\(std::option::Option<[\w:]*TypeVftable>, std::option::Option<[\w:]*Region>\), ', f.raw.get('output', ''))]
     if len(vb) != 1:
         ctx.fail_closed(['C06', 'C14'], 'R-ANCHOR', 'VB', 'expected one function returning Result<(Option<TypeVftable>, Option<Region>)>, found %s' % [f.id for f in vb])
@@ -34,6 +35,68 @@ def run(ctx):
 
 
 # ------------------------------------------------------------------------------------------------
+def slot_source(ctx, cgf):
+    """C04: the slot list of a type with a vftable block is always the slot builder's result for that block: every value of
+    the Option that is handed on as the type's own vftable functions is None (no block) or Some(builder(.., the block's
+    #[size], the block's functions)); no path substitutes another list (e.g. an empty one for an empty block)"""
+    P = ctx.prog
+    callers = [(g, c) for g in P.fns.values() if not g.raw.get('derived') for c in g.calls(lambda r: r['path'] == cgf.id)]
+    if len(callers) != 1:
+        ctx.fail_closed(['C04'], 'R-SLP', 'CGF|call-site', 'expected one call of the slot builder, found %d' % len(callers), loc(cgf.span))
+        return
+    g, c = callers[0]
+    where = loc(c['span'])
+    args = [g.expr_of_operand(a) for a in c['term']['args']]
+    # which parameter is the size, which the function list
+    ins = [re.sub(r"'\w+ ", '', t) for t in cgf.raw.get('inputs', [])]
+    try:
+        isz, ifn = ins.index('std::option::Option<usize>'), [i for i, t in enumerate(ins) if '[grammar::Function]' in t][0]
+    except (ValueError, IndexError):
+        ctx.fail_closed(['C04'], 'R-SLP', 'CGF|call-site', 'slot builder signature not recognised', where)
+        return
+    fnarg = args[ifn]
+    x_ = strip(fnarg)
+    while x_[0] == 'call' and x_[2] and re.search(r'(::deref|::as_slice|::as_ref|::borrow)$', x_[1]):
+        x_ = strip(x_[2][0])
+    while x_[0] == 'field':
+        x_ = strip(x_[1])
+    okfn = x_[0] == 'payload' and x_[2] == 'Vftable'
+    sz = strip(args[isz])
+    oksz = False
+    if sz[0] == 'var':
+        ds = [strip(d) for d in g.init_of(sz[1])]
+        lits = [d for d in ds if d[0] == 'agg' and d[1].endswith('Option::Some') and any(isinstance(x, tuple) and x[0] == 'payload' and x[2] == 'IntLiteral' for x in walk(d))]
+        nones = [d for d in ds if d[0] == 'agg' and d[1].endswith('Option::None')]
+        strs = {op.get('str') for bi in g.normal_blocks() for op in g.block_operands(bi) if op.get('k') == 'Const' and 'str' in op}
+        oksz = len(ds) == 2 and len(lits) == 1 and len(nones) == 1 and 'size' in strs
+    ctx.ob(['C04'], 'R-SLP', 'CGF|call-arguments', bool(okfn and oksz),
+           'the slot builder is called with the vftable block\'s own function list (whole) and the block\'s own #[size] literal (None when absent): %s / %s' % (show(fnarg)[:80], show(sz)[:40]), where)
+    # the Option handed on
+    dest = c['term']['dest']['local']
+    holder = None
+    for l, ds in g.defs().items():
+        if g.local_ty(l).startswith('std::option::Option<std::vec::Vec<%s>' % FUNCTION) and l in g.names:
+            es = [strip(g.expr_of_def(d)) for d in ds]
+            if any(any(is_call(x, cgf.id.split('::')[-1]) for x in walk(e)) for e in es):
+                holder = (l, es)
+    def peel(e):
+        e = unwrap_all(e)
+        while e[0] == 'call' and e[2] and (e[3].endswith('Context::with_context') or e[3].endswith('Context::context') or e[1].endswith('::map_err')):
+            e = unwrap_all(e[2][0])
+        return e
+    okh = False
+    det = 'no Option<Vec<Function>> local receives the builder result'
+    if holder:
+        l, es = holder
+        det = [show(e)[:70] for e in es]
+        okh = all((e[0] == 'agg' and e[1].endswith('Option::None')) or
+                  (e[0] == 'agg' and e[1].endswith('Option::Some') and is_call(peel(e[2][0][1]), cgf.id.split('::')[-1])) or
+                  (is_call(peel(e), cgf.id.split('::')[-1]))
+                  for e in es)
+    ctx.ob(['C04', 'C06'], 'R-SLP', 'CGF|only-source-of-slots', okh,
+           'the type\'s own slot list is None or exactly the slot builder\'s result on every path (no other list is substituted): %s' % det, where)
+
+
 def slots(ctx, cgf):
     P = ctx.prog
     where = loc(cgf.span)
